@@ -59,13 +59,23 @@ type World struct {
 	dead       bool // a real operation did not return: nothing more can be done in this process
 	immature   *chainkit.Coin
 	envAbort   bool
-	order      []*txInfo // creation order (deterministic iteration)
-	setupCb    []*btc.Tx // setupCb[i] = coinbase of the setup block at height i+1 (outputs to OP_TRUE)
-	skipList   int       // verify(): probability (percent) of NOT calling GetSortedMempoolRBF, so a dirty list survives
-	gv         *vlib.Rng // verify()'s own stream (does not disturb the operation generator)
-	dirtyRun   int       // number of consecutive verified operations over which the sorted list stayed dirty
+	order      []*txInfo              // creation order (deterministic iteration)
+	setupCb    []*btc.Tx              // setupCb[i] = coinbase of the setup block at height i+1 (outputs to OP_TRUE)
+	skipList   int                    // verify(): probability (percent) of NOT calling GetSortedMempoolRBF, so a dirty list survives
+	gv         *vlib.Rng              // verify()'s own stream (does not disturb the operation generator)
+	dirtyRun   int                    // number of consecutive verified operations over which the sorted list stayed dirty
 	twins      map[[32]byte][]*txInfo // other serializations (witness) of a known txid: outside Univ2.id_fun, judged on the real code
 	cbTold     map[[32]byte]bool      // setup coinbases already described to the oracle
+
+	// a block commit in progress (BlockCommitInProgress(true) … (false)): the chain calls BlockUndone / BlockMined once per
+	// block and releases TxMutex in between and afterwards — the window in which another thread of the node (RPC
+	// getblocktemplate, web / text UI, …) lists the pool while SortingDisabled is set
+	inCommit bool
+	pendOps  []func() string // oracle lines (built when the event comes: the fee floor in force is part of them) of the chain events of this commit, one per BlockUndone / BlockMined callback, in order
+	midProb  int             // probability (percent) that "another thread" lists and inspects the pool right after such a callback
+	gm       *vlib.Rng       // the stream deciding that (does not disturb the operation generator)
+	note     string          // context put in front of every report (e.g. "after MempoolLoad refused …")
+	mid      string          // "" | "mined" | "undone": verify() runs inside a commit, after that kind of callback
 
 	conf    map[string]uint64 // confirmedSet's cache
 	confTx  map[string]bool
@@ -96,12 +106,15 @@ func newWorld(r *vlib.Run, g *vlib.Rng, name string, notFullRBF bool) *World {
 	w := &World{r: r, g: g, name: name, txs: map[[32]byte]*txInfo{}, ledger: map[btc.TxPrevOut]*chainkit.Coin{}, keys: map[string]*chainkit.Key{}, notFullRBF: notFullRBF,
 		twins: map[[32]byte][]*txInfo{}, cbTold: map[[32]byte]bool{}}
 	w.gv = g.Fork()
+	w.gm = w.gv.Fork()
+	w.midProb = 100
 	if strings.HasPrefix(name, "random") {
 		w.skipList = 40
+		w.midProb = 35
 	}
 	opts := &chain.NewChanOpts{
-		BlockMinedCB:  func(bl *btc.Block) { txpool.BlockMined(bl) },  // client/main.go blockMined (fee statistics left out)
-		BlockUndoneCB: func(bl *btc.Block) { txpool.BlockUndone(bl) }, // client/main.go blockUndone
+		BlockMinedCB:  func(bl *btc.Block) { w.chainEvent("mined", func() { txpool.BlockMined(bl) }) },   // client/main.go blockMined (fee statistics left out)
+		BlockUndoneCB: func(bl *btc.Block) { w.chainEvent("undone", func() { txpool.BlockUndone(bl) }) }, // client/main.go blockUndone
 	}
 	k, err := chainkit.New(chainkit.Opts{ChainOpts: opts}, g.Fork())
 	if err != nil {
@@ -322,12 +335,12 @@ func (w *World) replay() map[string]interface{} {
 func (w *World) propFail(key, what string) {
 	w.failed = true
 	w.propFailed = true
-	w.r.PropFail(key, "["+w.name+" step "+strconv.Itoa(w.steps)+"] "+what, w.replay())
+	w.r.PropFail(key, "["+w.name+" step "+strconv.Itoa(w.steps)+"] "+w.note+what, w.replay())
 }
 
 func (w *World) tieFail(key, what string) {
 	w.failed = true
-	w.r.TieFail(key, "["+w.name+" step "+strconv.Itoa(w.steps)+"] "+what, w.replay())
+	w.r.TieFail(key, "["+w.name+" step "+strconv.Itoa(w.steps)+"] "+w.note+what, w.replay())
 }
 
 // ------------------------------------------------------------------------------------------ operations
@@ -538,14 +551,57 @@ func (w *World) blockLine(height uint32, txs []*txInfo) string {
 	return sb.String()
 }
 
+// chainEvent is the BlockMinedCB / BlockUndoneCB of the chain. Inside a commit driven by the harness the model gets
+// the corresponding operation now (so that its history has the chain's own order of undone and connected blocks), the
+// real pool function runs, and then - TxMutex is free again, SortingDisabled still set - "another thread" may take the
+// mutex: the listing the node would hand out at this moment is taken and the whole state is verified.
+func (w *World) chainEvent(kind string, f func()) {
+	if !w.inCommit {
+		f() // building the setup chain
+		return
+	}
+	if len(w.pendOps) > 0 {
+		line := w.pendOps[0]()
+		w.pendOps = w.pendOps[1:]
+		if rep := w.ask(line); rep != "ok" {
+			fmt.Fprintln(os.Stderr, "HARNESS-ERROR: oracle replied", rep, "to", line)
+			os.Exit(3)
+		}
+	} else {
+		w.tieFail("chain-event-unexpected", "the chain reports a block "+kind+" that the harness did not expect in this commit")
+	}
+	f()
+	if w.midProb > 0 && !w.propFailed && w.gm.Intn(100) < w.midProb {
+		w.r.Hit("mid-commit:listing-after-block-" + kind)
+		w.confKey = ""
+		w.mid = kind
+		w.verify()
+		w.mid = ""
+	}
+}
+
+// flushPend hands the model the chain events of a commit whose callback did not come (reported as a mismatch).
+func (w *World) flushPend() {
+	for _, mk := range w.pendOps {
+		line := mk()
+		w.tieFail("chain-event-missing", "the chain did not report to the pool: "+line[:strings.IndexByte(line+" ", ' ')])
+		w.ask(line)
+	}
+	w.pendOps = nil
+}
+
 // submitBlock = client/main.go LocalAcceptBlock: BlockCommitInProgress around the commit, then common.Last.
 func (w *World) submitBlock(raw []byte) (res *chainkit.Result, pan string, hung bool) {
 	w.confKey = "" // the confirmed set is read again from the UTXO db after every block
 	pan, hung = w.guarded("CommitBlock", func() {
 		txpool.BlockCommitInProgress(true)
+		w.inCommit = true
 		res = w.k.Submit(raw)
+		w.inCommit = false
 		txpool.BlockCommitInProgress(false)
 	})
+	w.inCommit = false
+	w.confKey = ""
 	return
 }
 
@@ -563,9 +619,12 @@ func (w *World) mine(cands []*txInfo) bool {
 	raw := w.k.Build(chainkit.BlockSpec{Txs: w.txsOf(txs), Fees: fees})
 	height := w.k.Ch.LastBlock().Height + 1
 	w.mustOK("flag 1")
-	w.mustOK(w.blockLine(height, txs))
-	w.mustOK("flag 0")
+	w.pendOps = []func() string{func() string { return w.blockLine(height, txs) }}
 	res, pan, hung := w.submitBlock(raw)
+	if !hung && pan == "" {
+		w.flushPend()
+		w.mustOK("flag 0")
+	}
 	w.r.Hit("op:block")
 	w.r.Hit(fmt.Sprintf("block-txs:%s", bucket(len(txs))))
 	if hung {
@@ -595,17 +654,22 @@ func (w *World) undoBare() bool {
 	}
 	w.steps++
 	w.mustOK("flag 1")
-	if rep := w.ask(fmt.Sprintf("undo %d %d", w.k.Ch.LastBlock().Height, common.MinFeePerKB())); rep != "ok" {
-		fmt.Fprintln(os.Stderr, "HARNESS-ERROR: oracle undo:", rep)
-		os.Exit(3)
-	}
-	w.mustOK("flag 0")
+	uh := w.k.Ch.LastBlock().Height
+	w.pendOps = []func() string{func() string { return fmt.Sprintf("undo %d %d", uh, common.MinFeePerKB()) }}
 	w.confKey = ""
 	pan, hung := w.guarded("UndoLastBlock", func() {
 		txpool.BlockCommitInProgress(true)
+		w.inCommit = true
 		quiet(func() { w.k.Ch.UndoLastBlock() })
+		w.inCommit = false
 		txpool.BlockCommitInProgress(false)
 	})
+	w.inCommit = false
+	w.confKey = ""
+	if !hung && pan == "" {
+		w.flushPend()
+		w.mustOK("flag 0")
+	}
 	w.r.Hit("op:undo-bare")
 	if hung {
 		w.propFail("hang:undo", "undoing a block does not return (BlockUndone holds TxMutex)")
@@ -655,12 +719,13 @@ func (w *World) reorg(depth int, cands []*txInfo) bool {
 		feesPer = append(feesPer, f)
 	}
 	// oracle: what the chain will do when the last block arrives
+	// (the chain stores the first side blocks and does everything - the undos, then the connects - when the last one
+	// arrives: the model is handed each of these operations when the chain reports it to the pool)
 	w.mustOK("flag 1")
+	w.pendOps = nil
 	for i := 0; i < depth; i++ {
-		if rep := w.ask(fmt.Sprintf("undo %d %d", w.k.Ch.LastBlock().Height-uint32(i), common.MinFeePerKB())); rep != "ok" {
-			fmt.Fprintln(os.Stderr, "HARNESS-ERROR: oracle undo:", rep)
-			os.Exit(3)
-		}
+		uh := w.k.Ch.LastBlock().Height - uint32(i)
+		w.pendOps = append(w.pendOps, func() string { return fmt.Sprintf("undo %d %d", uh, common.MinFeePerKB()) })
 	}
 	parent := node
 	h := node.Height
@@ -671,7 +736,8 @@ func (w *World) reorg(depth int, cands []*txInfo) bool {
 		}
 		fees := feesPer[i]
 		raw := w.k.Build(chainkit.BlockSpec{Parent: parent, Txs: w.txsOf(txs), Fees: fees})
-		w.mustOK(w.blockLine(h+uint32(i)+1, txs))
+		bh, btxs := h+uint32(i)+1, txs
+		w.pendOps = append(w.pendOps, func() string { return w.blockLine(bh, btxs) })
 		res, pan, hung := w.submitBlock(raw)
 		if hung {
 			w.propFail("hang:reorg", "a reorganisation does not return")
@@ -687,6 +753,7 @@ func (w *World) reorg(depth int, cands []*txInfo) bool {
 		}
 		parent = w.k.Ch.BlockIndex[res.Block.Hash.BIdx()]
 	}
+	w.flushPend()
 	w.mustOK("flag 0")
 	if w.k.Ch.LastBlock() != parent {
 		fmt.Fprintln(os.Stderr, "HARNESS-ERROR: reorg did not move the tip")
@@ -823,6 +890,11 @@ func (w *World) reload() {
 		if b, err := os.ReadFile(common.GocoinHomeDir + txpool.MEMPOOL_FILE_NAME); err != nil || !bytes.HasSuffix(b, txpool.END_MARKER) {
 			envFail = true
 			return
+		} else if !w.refusedLoads(b) { // damaged variants of this file first: each must be refused and leave nothing behind
+			if back, err := os.ReadFile(common.GocoinHomeDir + txpool.MEMPOOL_FILE_NAME); err != nil || !bytes.Equal(back, b) {
+				envFail = true
+				return
+			}
 		}
 		ok = txpool.MempoolLoad()
 	})
@@ -1268,7 +1340,9 @@ func (w *World) checkProperty(listing []*txpool.OneTxToSend, fromRBF bool) {
 	} else {
 		w.checkParentsFirst("sorted", "GetSortedMempool", sorted, len(pool))
 	}
-	w.checkTemplate(listing)
+	if w.mid != "undone" { // (inside UndoLastBlock the UTXO db is already one block back, the chain's tip is not)
+		w.checkTemplate(listing)
+	}
 }
 
 // checkParentsFirst: l lists every pooled transaction exactly once and no transaction before one it spends from.
